@@ -182,7 +182,8 @@ class InstanceManager:
                         timeout = datetime.timedelta(hours=12)  # Terminate the session after 12 hours
                     last_call_time = self._instances[key]["time"]
                     if last_call_time:
-                        if current_time >= last_call_time + timeout:
+                        # (compared as durations: last_call_time + timeout overflows the date range for a very long timeout)
+                        if current_time - last_call_time >= timeout:
                             self._instances[key]['instance'].destroy() #ensure that bptk releases all resources
                             del self._instances[key]
             except KeyError:
